@@ -39,7 +39,10 @@ GenErrors   == {"TooLargeInput", "TooSmallInput", "BucketsAreHalfEmpty",
 -----------------------------------------------------------------------------
 (* Feature extraction.                                                     *)
 
-BMapOf(v, s, x, y, z) == IF v.map = "p48" THEN BMap48(s, x, y, z) ELSE BMap256(s, x, y, z)
+BMapOf(v, s, x, y, z) ==
+    CASE v.map = "p48" -> BMap48(s, x, y, z)
+      [] v.map = "p8"  -> BMap256(s, x, y, z) % 8        \* toy variants only
+      [] OTHER         -> BMap256(s, x, y, z)
 
 \* The six bucket indices produced by the window b0 b1 b2 b3 b4 (b4 newest).
 WindowBuckets(v, b0, b1, b2, b3, b4) ==
@@ -144,8 +147,7 @@ FinalizeFan(v, bk, ck, n) ==
 
 \* Laws over a fan (C10): permissiveness only widens acceptance and never
 \* changes an accepted hash; the error kinds are ordered length -> 3/4 -> 1/2.
-FanLattice(fan) ==
-    \A o1, o2 \in Options :
-        OptLe(o1, o2) /\ fan[o1 + 1].ok => fan[o2 + 1] = fan[o1 + 1]
+OptLePairs == {p \in Options \X Options : OptLe(p[1], p[2])}       \* computed once
+FanLattice(fan) == \A p \in OptLePairs : fan[p[1] + 1].ok => fan[p[2] + 1] = fan[p[1] + 1]
 
 =============================================================================
